@@ -1,9 +1,10 @@
 mod c30;
 mod c31;
+mod c32;
 mod c33;
 mod c34;
 mod util;
 
 fn main() {
-    vmon::run_main(&[("C30", c30::run), ("C31", c31::run), ("C33", c33::run), ("C34", c34::run)]);
+    vmon::run_main(&[("C30", c30::run), ("C31", c31::run), ("C32", c32::run), ("C33", c33::run), ("C34", c34::run)]);
 }
